@@ -273,7 +273,7 @@ def derive_pulls(diags):
         if d.get("level") != "error":
             continue
         msg = d.get("message", "")
-        m = re.search(r"no (?:method|function or associated item|associated function or constant|associated item) named `(\w+)` found for (?:struct|enum|type|union|reference) `&?(?:mut )?([^`]+)`", msg)
+        m = re.search(r"no (?:method|function or associated item|associated function or constant|associated item) named `(\w+)` found for (?:struct|enum|type|union|reference|mutable reference) `&?(?:mut )?([^`]+)`", msg)
         if m:
             ty = re.sub(r"<.*", "", m.group(2)).split("::")[-1].strip()
             out.append((ty, m.group(1)))
